@@ -723,8 +723,40 @@ func (g *gen) genSpec(k int) *ModSpec {
 // wazero is expected to produce by its documented rules.
 func (g *gen) instStep(specIdx int, as string, bytesPct int) {
 	st := Step{Op: "inst", Spec: specIdx, As: as, Bytes: g.pct(bytesPct, "instantiate-from-bytes")}
+	// ImportResolver route: designate, for some imported module names, another live instance of
+	// the same module specification than the one registered under that name
+	spec := g.c.Specs[specIdx]
+	if g.pct(45, "import-resolver") {
+		res := map[string]string{}
+		seen := map[string]bool{}
+		for _, im := range spec.Imports {
+			reg, ok := g.m.live[im.Mod]
+			if seen[im.Mod] || !ok {
+				continue
+			}
+			seen[im.Mod] = true
+			var sib []string
+			for _, n := range g.m.order {
+				if o := g.m.live[n]; o != reg && o.spec == reg.spec {
+					sib = append(sib, n)
+				}
+			}
+			if len(sib) > 0 && g.pct(70, "shadow-registered-name") {
+				res[im.Mod] = pick(g, sib, "designated-instance")
+			}
+		}
+		if len(res) > 0 {
+			g.m.resolve = res
+			if p := g.m.plan(spec, as); p.elemOOB < 0 && len(p.nullOver) == 0 {
+				st.Resolve = res
+			}
+			g.m.resolve = nil
+		}
+	}
 	g.c.Script = append(g.c.Script, st)
+	g.m.resolve = st.Resolve
 	p := g.m.plan(g.c.Specs[specIdx], as)
+	g.m.resolve = nil
 	if p.compileReject || !p.wzCompat || p.inst == nil || p.elemOOB >= 0 || len(p.nullOver) > 0 {
 		g.m.reject()
 		return
@@ -824,6 +856,35 @@ func (g *gen) chainCall() bool {
 	call := Step{Op: "acc", Inst: c.x.name, Acc: pick(g, []string{"call", "call", "rcall"}, "chain-call-form"), Idx: c.i}
 	g.c.Script = append(g.c.Script, call)
 	g.m.eval(call)
+	return true
+}
+
+// closeStep closes an instance nobody depends on (see model.closable), preferably one that
+// imports a memory, table or global other live instances keep using.
+func (g *gen) closeStep() bool {
+	var ok, sharing []string
+	for _, n := range g.m.order {
+		x := g.m.live[n]
+		if len(g.m.order) < 2 || !g.m.closable(x) {
+			continue
+		}
+		ok = append(ok, n)
+		if x.v.impMem || x.v.nIT > 0 || x.v.nIG > 0 {
+			sharing = append(sharing, n)
+		}
+	}
+	if len(ok) == 0 {
+		return false
+	}
+	n := pick(g, ok, "close")
+	if len(sharing) > 0 && g.pct(85, "close-a-sharing-importer") {
+		n = pick(g, sharing, "close-sharing")
+	}
+	g.c.Script = append(g.c.Script, Step{Op: "close", Inst: n})
+	g.m.close(n)
+	if g.hotBy == n {
+		g.hot = nil
+	}
 	return true
 }
 
@@ -1204,6 +1265,7 @@ func genCase(t *rapid.T) *Case {
 				as = fmt.Sprintf("%sr%d", as, g.fresh)
 			}
 			g.instStep(k, as, 10) // mostly the same CompiledModule instantiated again
+		case g.pct(6, "close-importer") && g.closeStep():
 		case g.pct(10, "sibling-call") && g.siblingCall():
 		case g.pct(15, "chain-call") && g.chainCall():
 		case len(g.zombies) > 0 && g.pct(15, "zombie-call") && g.zombieCall():
